@@ -314,6 +314,8 @@ ISAR_FRAGMENTS = [
     '<xi:include xmlns:xi="http://www.w3.org/2001/XInclude" href=""/>',
     '<struct name="S"><member name="a" type="u8"/><member name="a" type="u8"/></struct>',
     '<struct name="S"/><struct name="S"><member name="a" type="S"/></struct>',
+    '<constant name="BL" value="shiftLeft(1,,,,,,,,,,,,2) shiftLeft(1,,,,,,,,,,,,2) shiftLeft(1,,,,,,,,,,,,2)"/>',
+    '<constant name="BM" value="bitMaskOr(1,,2) bitMaskOr((1,2),(3,,4)) shiftLeft(,)"/>',
     '<struct name="A&#10;B" comment="hello"><member name="a" type="u8"/></struct>',
     '<struct name="SC" comment="line one&#10;line two"><member name="a&#10;b" type="u8" comment="x"/></struct>',
     '<enum name="E&#9;X" comment="c"><enum-member name="a b" value="1" comment="d&#10;e"/></enum>',
